@@ -151,6 +151,8 @@ def run(ctx):
     sets = gen.canonical_sets(G, 3)
     tss = gen.multisets(G, 4 if ctx.quick else 5)
     cases = [(ts, st, en) for ts in tss for (st, en) in sets]
+    # translate every second case below zero (sign-dependent slips: zero-initialised buffers, abs(), ...)
+    cases = [c if n % 2 else tuple([v - 4 for v in part] for part in c) for n, c in enumerate(cases)]
     if not ctx.quick:
         sets8 = gen.canonical_sets(8, 4)
         for _ in range(60000):
@@ -168,7 +170,11 @@ def run(ctx):
         st2 = en2 = None
         if n % 2 == 0:
             st2, en2 = ctx.rng.choice(sets)
-        api_case(ctx, classes[n % 5], list(ts), list(st), list(en), scale, st2, en2)
+        if n % 4 < 2:
+            ts = [v - 4 for v in ts]; st = [v - 4 for v in st]; en = [v - 4 for v in en]
+            if st2 is not None:
+                st2 = [v - 4 for v in st2]; en2 = [v - 4 for v in en2]
+        api_case(ctx, classes[n % 5], list(ts), list(st), list(en), scale, None if st2 is None else list(st2), None if en2 is None else list(en2))
     # malformed stream: non-IntervalSet argument must raise TypeError
     try:
         nap.Ts([1.0]).restrict([0, 1]); ctx.fail("oracle", "restrict accepted a list", dict(level="api-malformed"))
